@@ -181,16 +181,18 @@ class OsProxy(types.ModuleType):
 
 
 class FaultyWriter(object):
+    MODE = "wb"
+
     """A file opened for writing as the store sees it: like io.BufferedWriter it keeps up to 8 KiB in user space;
     buffered data reach the disk at flush / close (each transfer to the disk is a fault point with a drawn torn
     prefix) and are LOST if the process dies or the write fails first."""
 
     BUFSIZE = 8192
 
-    def __init__(self, path, c):
+    def __init__(self, path, c, mode="wb"):
         self.c = c
         self.rel = os.path.relpath(path, c.root)
-        self.raw = _real_open(path, "wb", buffering=0)
+        self.raw = _real_open(path, mode, buffering=0)      # 'xb' raises FileExistsError like the real open
         self.closed = False
         self.failed = False
         self.buf = b""
@@ -240,11 +242,8 @@ def _open_pipeline(path, mode="r", *a, **kw):
 
 def _open_local_io(path, mode="r", *a, **kw):
     c = ctl()
-    if c is not None and c.active and "w" in mode and "b" in mode:
-        try:
-            return FaultyWriter(path, c)
-        except BaseException:
-            raise
+    if c is not None and c.active and ("w" in mode or "x" in mode) and "b" in mode:
+        return FaultyWriter(path, c, "xb" if "x" in mode else "wb")
     return _real_open(path, mode, *a, **kw)
 
 
@@ -322,7 +321,9 @@ def install():
     tp.IMAGE_SOURCE_CLASS_LOADERS["verif-stub"] = lambda: StubSource
 
 
-NAMES = ["L0X0Y0.png", "L1X0Y0.png", "a_first.txt", "zz_last.bin", "thumb.jpg", "index_rel.wtml", "L1X1Y1.png", "Zeta.dat", "0.bin", "j.json"]
+NAMES = ["L0X0Y0.png", "L1X0Y0.png", "a_first.txt", "zz_last.bin", "thumb.jpg", "index_rel.wtml", "L1X1Y1.png", "Zeta.dat", "0.bin", "j.json",
+         # names that look like what a store might use for its own temporary files, upper case, spaces, dot files
+         "L0X0Y0.png.part", "index.wtml.part", "L0X0Y0.png.0.part", "INDEX.WTML", "with space.txt", ".hidden", "index.wtml.bak"]
 
 
 def file_bytes(uid, name, size):
